@@ -113,6 +113,7 @@ Q = [
 ]
 ALL = V2 + I + Q
 CORE = V2 + I[::3] + Q[::3]
+
 INVALID_KEYS = set(spec_key for spec_key in range(len(V2), len(V2) + len(I)))
 
 
@@ -158,7 +159,8 @@ def _same(a, b):
 
 
 def is_invalid(call):
-    return any(_same(list(call), list(i)) for i in I)
+    return any(_same(list(call), list(i)) for i in I) or \
+        any(_same(list(call), list(i)) for i in globals().get('I_EXT', ()))
 
 
 def unencodable_here(op, kw, w):
@@ -177,6 +179,32 @@ def unencodable_here(op, kw, w):
         return False
 
     return False
+
+
+# every invalid call once more with each valid optional argument it did not
+# have yet: what is wrong stays wrong whatever else is passed with it
+VALID_EXTRAS = {
+    'preamble': [('indent', 0), ('indent', 7), ('line_endings', 'dos'),
+                 ('mimetype', 'text/markdown'), ('encoding', 'utf-8'),
+                 ('encoding', 'utf-16')],
+    'meta': [('meta_format', 'json'), ('encoding', 'utf-8'),
+             ('line_endings', 'unix')],
+    'diff': [('diff_type', 'binary'), ('diff_type', 'text'),
+             ('line_endings', 'dos'), ('encoding', 'utf-8')],
+}
+I_EXT = []
+
+for _op, _kw in I:
+    for _k, _v in VALID_EXTRAS.get(_op, ()):
+        if _k not in _kw:
+            _call = [_op, dict(_kw, **{_k: _v})]
+
+            if not any(_same(_call, x) for x in V2) and \
+                    not (_op == 'preamble' and _k == 'encoding' and
+                         _kw.get('text') in ('\xe9', '\u4e2d')):
+                I_EXT.append(_call)
+
+WIDE = V2 + I + I_EXT + Q
 
 
 def is_questionable(call):
@@ -365,6 +393,13 @@ def chunks(tier, seed):
         for b in range(len(ALL)):
             out.append(('A', (a, b), 3))
 
+    # all pairs over the wide alphabet (every invalid call x every valid
+    # extra argument)
+    out.append(('W', (), 2))
+
+    for a in range(len(WIDE)):
+        out.append(('W', (a,), 2))
+
     if la > 3:
         # one step deeper over the valid variants and every third
         # invalid / unwritable one
@@ -377,7 +412,7 @@ def chunks(tier, seed):
 
 def run_chunk(chunk, st):
     which, head, maxlen = chunk
-    alphabet = {'V': V, 'A': ALL, 'C': CORE}[which]
+    alphabet = {'V': V, 'A': ALL, 'C': CORE, 'W': WIDE}[which]
     evals = 0
     nontrivial = 0
     sample = None
@@ -423,7 +458,7 @@ def strategy():
             r = draw(hs.integers(0, 9))
 
             if r < 2:
-                call = draw(hs.sampled_from(I + Q))
+                call = draw(hs.sampled_from(I + I_EXT + Q))
             else:
                 # bias towards legal continuations, keep some illegal ones
                 ops = ['change', 'file', 'preamble', 'meta', 'diff']
